@@ -277,7 +277,7 @@ PROPS["C02"] = dict(
     level_note=_MODELLED + "The audit is evaluated on dumps of the real node store; in-place reordering is "
                "covered by C13's scripts. Soundness of the audit w.r.t. the tree-level predicate: see DESIGN.")
 PROPS["C06"] = dict(
-    gens=[("hist", gen.gen_hist, 0.8), ("node-level", gen.gen_C06_nodes, 0.5), ("recycle-cached", gen.gen_recycle_cached, 0.6)], quick=40, thorough=500, rule=_AUDIT_RULE,
+    gens=[("hist", gen.gen_hist, 0.8), ("node-level", gen.gen_C06_nodes, 0.5), ("recycle-cached", gen.gen_recycle_cached, 0.6), ("counter-array", gen.gen_counter, 0.3)], quick=40, thorough=500, rule=_AUDIT_RULE,
     level_text="Proved (RefStoreP): for every history of node creations (unique-table lookup), reference "
                "duplications and drops (recursive reclamation) the recorded counts are exact, an identifier is "
                "live iff referenced, children are live and below their parent, no duplicates, and nothing is "
